@@ -605,6 +605,89 @@ def stat_case(ctx, case, delta):
     return worst
 
 
+# =====================================================================================================
+# the PUBLIC entry point: ONE MPSBackend(seq, config).run() with n_trajectories = K must emulate K independent
+# quantum-jump trajectories and return their average
+def gen_public_case(rng, K):
+    g = lambda lo, hi: round(rng.uniform(lo, hi), 2)  # noqa: E731
+    return {"kind": "public-run", "n": 2, "K": K, "dt": 40, "duration": 240, "amp": g(6, 14), "det": g(-3, 3),
+            "phase": rng.choice([0.0, g(0, 3)]), "spacing": g(7.5, 10.0),
+            "noise": {"relaxation": g(2, 6), "dephasing": g(2, 6)}, "seed": rng.randrange(2 ** 31)}
+
+
+def public_run_case(ctx, case, delta):
+    import pulser
+    import emu_mps
+    import emu_mps.mps_backend as mb
+    from pulser.backend import Occupation
+
+    K, n = case["K"], case["n"]
+    reg = pulser.Register({f"q{i}": (case["spacing"] * i, 0.0) for i in range(n)})
+    seq = pulser.Sequence(reg, pulser.MockDevice)
+    seq.declare_channel("ch", "rydberg_global")
+    seq.add(pulser.Pulse.ConstantPulse(case["duration"], case["amp"], case["det"], case["phase"]), "ch")
+    et = [0.5, 1.0]
+    created = []
+    orig = mb.create_impl
+
+    def create(data, config):
+        created.append(data)
+        return orig(data, config)
+
+    proxy = RandProxy(real=pyrandom.Random(case["seed"]))      # the real sampler, with every call recorded
+    mb.create_impl = create
+    try:
+        with warnings.catch_warnings():
+            warnings.simplefilter("ignore")
+            cfg = emu_mps.MPSConfig(
+                dt=case["dt"], observables=[Occupation(evaluation_times=et)], n_trajectories=K, num_gpus_to_use=0,
+                optimize_qubit_ordering=False, log_level=logging.CRITICAL,
+                noise_model=pulser.NoiseModel(relaxation_rate=case["noise"]["relaxation"],
+                                              dephasing_rate=case["noise"]["dephasing"]))
+            with rebound_random(proxy):
+                res = emu_mps.MPSBackend(seq, config=cfg).run()
+    except Exception as ex:
+        ctx.violation(f"MPSBackend.run() raised on a valid noisy sequence: {ex!r}",
+                      {"case": case, "finding_key": "e2e-raises"})
+        return None
+    finally:
+        mb.create_impl = orig
+    nthr, njump = len(proxy.uniform_calls), len(proxy.choices_calls)
+    out = {"emulations": len(created), "threshold_draws": nthr, "jumps": njump}
+    # every trajectory draws one threshold when it starts and one more after each of its jumps
+    if len(created) != K or nthr != K + njump:
+        ctx.violation(f"one run() with n_trajectories={K} emulated {len(created)} trajectories and drew {nthr} jump "
+                      f"thresholds for {njump} jumps (expected {K} emulations and {K} + #jumps draws): the averaged "
+                      "trajectories are not independent", {"case": case, "counts": out,
+                                                           "finding_key": "trajectories-not-independent"})
+        if not created:
+            return out
+    data = created[0]
+    times = [float(t) for t in data.target_times]
+    prob = {"n": n, "steps": len(times) - 1, "times": times, "omega": data.omega.real.numpy(),
+            "delta": data.delta.real.numpy(), "phi": data.phi.real.numpy(),
+            "U": data.interaction_matrix(times[0]).numpy()}
+    ops = noise_ops(case["noise"], 2)
+    ref = lindblad_reference(prob, ops, 2)
+    worst = 0.0
+    for t in et:
+        k = min(range(len(times)), key=lambda i: abs(times[i] / times[-1] - t))
+        p = occ_rho(ref[k], n, 2)
+        got = np.array([float(x) for x in res.get_result("occupation", t)])
+        for j in range(n):
+            thr = bernstein_threshold(float(p[j]), K, delta) + BIAS
+            dev = abs(float(got[j] - p[j]))
+            worst = max(worst, dev / thr)
+            if dev > thr:
+                ctx.violation(f"occupation (atom {j}, t={t}) returned by ONE run() with n_trajectories={K} is "
+                              f"{got[j]:.4f}, Lindblad value {p[j]:.4f}, allowed deviation {thr:.4f}",
+                              {"case": case, "counts": out, "finding_key": "average-differs"})
+                out["worst_dev_over_threshold"] = worst
+                return out
+    out["worst_dev_over_threshold"] = worst
+    return out
+
+
 # ---- deterministic scripted trajectories -----------------------------------------------------------------
 def det_case(ctx, case):
     """case: like a stat case plus 'u1' (None = no jump) and 'choice' (index in the candidate list)."""
@@ -725,14 +808,14 @@ def falsifier_stage(ctx):
     kinds = ["relaxation", "dephasing", "depolarizing", "effective", "leakage", "mixed"]
     det = [c for c in corpus_cases() if c.get("kind") == "det"]
     stat = [c for c in corpus_cases() if c.get("kind") == "stat"]
-    ndet = ctx.n(24, 180)
+    ndet = ctx.n(18, 180)
     for i in range(ndet):
         det.append(gen_det_case(ctx.rng, kinds[i % 6], [2, 3, 2, 2, 3, 4][i % 6] if ctx.thorough() else [2, 3, 2][i % 3],
                                 jump=(i % 4 != 0)))
     # Lindblad noise TOGETHER with badly prepared atoms (state_prep_error > 0): fill_results pads the state to the
     # full register; 3-5 atoms, 1-2 bad, with and without qubit reordering; two levels only (qutrit + bad atom is F-14)
     kinds2 = ["relaxation", "dephasing", "depolarizing", "effective", "mixed"]
-    for i in range(ctx.n(10, 60)):
+    for i in range(ctx.n(8, 60)):
         nt = [3, 4, 5, 4][i % 4]
         det.append(gen_det_case(ctx.rng, kinds2[i % 5], nt, jump=(i % 3 != 0), bad=gen_bad_mask(ctx.rng, nt),
                                 reorder=(i % 2 == 1)))
@@ -743,12 +826,12 @@ def falsifier_stage(ctx):
                 ("leakage", 2, 2000), ("mixed", 2, 500), ("mixed", 3, 300), ("leakage", 3, 300), ("relaxation", 4, 300),
                 ("effective", 3, 300)]
     else:
-        plan = [("mixed", 2, 600), ("leakage", 2, 600), ("effective", 3, 100)]
+        plan = [("mixed", 2, 300), ("leakage", 2, 300), ("effective", 3, 40)]
     for kind, n, M in plan:
-        stat.append(gen_case(ctx.rng, kind, n, M, coarse=(M >= 600)))
+        stat.append(gen_case(ctx.rng, kind, n, M, coarse=(M >= 600 or not ctx.thorough())))
     # statistical cases with one badly prepared atom among three (two well-prepared: cheap, exact TDVP step)
     for i in range(ctx.n(1, 2)):
-        stat.append(gen_case(ctx.rng, ["mixed", "relaxation", "effective"][i], 3, ctx.n(400, 1000), coarse=True,
+        stat.append(gen_case(ctx.rng, ["mixed", "relaxation", "effective"][i], 3, ctx.n(250, 1000), coarse=True,
                              bad=gen_bad_mask(ctx.rng, 3), reorder=(i == 1)))
     worst_det, njump_hist = {}, {}
     for c in det:
@@ -766,8 +849,19 @@ def falsifier_stage(ctx):
     nskip = njump_hist.get("skipped", 0)
     ctx.obligation("harness:scripted runs use the probed qubit ordering", nskip * 4 <= max(1, len(det)),
                    f"{nskip} of {len(det)} scripted trajectories gave no verdict", kind="harness")
-    ntests = sum(2 * c["n"] for c in stat)
+    public = [c for c in corpus_cases() if c.get("kind") == "public-run"]
+    public += [gen_public_case(ctx.rng, ctx.n(300, 1500)) for _ in range(ctx.n(1, 3))]
+    public += [gen_public_case(ctx.rng, 12) for _ in range(ctx.n(2, 10))]     # cheap: the counting oracle
+    ntests = sum(2 * c["n"] for c in stat) + sum(2 * c["n"] for c in public)
     delta = FWER / max(1, ntests)
+    pub_worst = 0.0
+    for c in public:
+        r = public_run_case(ctx, c, delta)
+        ctx.count_case({"kind": "public-run", "K": c["K"], "noise": c["noise"], "amp": c["amp"], "result": r},
+                       nontrivial=True)
+        if r:
+            pub_worst = max(pub_worst, r.get("worst_dev_over_threshold", 0.0))
+    ctx.extra["public_run_worst_deviation_over_threshold"] = pub_worst
     worst = 0.0
     for c in stat:
         w = stat_case(ctx, c, delta)
@@ -796,10 +890,12 @@ def run(ctx):
                 "relaxation, dephasing, depolarizing, effective, leakage (3 levels), mixed noise, 2-4 atoms, and 3-5 atoms "
                 "with 1-2 badly prepared atoms (state_prep_error > 0) with and without qubit reordering, against a "
                 "dense H_eff evolution of the well-prepared atoms; the norm of the state handed to the observables is "
-                "probed at EVERY fill. (d) statistical: trajectory averages (python random seeded from ctx.rng) of "
+                "probed at EVERY fill. (c') ONE public MPSBackend(seq).run() with n_trajectories = K (real pulser "
+                "sequence + NoiseModel, 2 atoms): K emulations, K + #jumps threshold draws, averaged occupations "
+                "against the dense Lindblad solution. (d) statistical: trajectory averages (python random seeded from ctx.rng) of "
                 "occupations at t = T/2 and T against the dense Lindblad reference; acceptance by the smaller of "
                 "Bernstein's bound with variance p(1-p) and the empirical Bernstein bound (Maurer-Pontil), Bonferroni "
-                "over all (case, time, atom) tests; n = 2 cases with >= 600 trajectories use 6 steps of 40 ns (one "
+                "over all (case, time, atom) tests; n = 2 cases of the quick tier and those with >= 600 trajectories use 6 steps of 40 ns (one "
                 "exact two-site exponential per step).")
     ctx.trusted_base += ["hand-written Model/McwfOps.v (validated by the two correspondences on every run)",
                          "python's random.choices / random.uniform are faithful samplers (the choice itself is not "
@@ -822,6 +918,8 @@ def replay(ctx, path):
     case = rp["case"]
     if case.get("kind") == "det":
         print("replay:", det_case(ctx, case))
+    elif case.get("kind") == "public-run":
+        print("replay:", public_run_case(ctx, case, FWER / (2 * case["n"])))
     elif case.get("kind") == "stat":
         print("replay worst deviation/threshold:", stat_case(ctx, case, FWER / (2 * case["n"])))
 
